@@ -321,8 +321,8 @@ def check_case(case, ctx):
                 flags.add("inject-after-end")
                 return
             content = expand(spec, is_text)
-            if in_progress[side] is not None and hazard[0] is None:
-                hazard[0] = "inject-during-fragmented-message"
+            if in_progress[side] is not None:
+                flags.add("inject-during-fragmented-message")
             complete(side, is_text, content, None, action, True)
             flags.add("inject")
             d.feed(wsl.WebSocketMessageInjected(flow, WebSocketMessage(
